@@ -510,6 +510,11 @@ func mangle(c context, templateName string) string {
 // escapeTree escapes the named template starting in the given context as
 // necessary and returns its output context.
 func (e *escaper) escapeTree(c context, node parse.Node, name string, line int) (context, string) {
+	if c.state == stateError {
+		// An error context is final. Looking the name up in the memo could replace it by the
+		// memoized context of a template whose name happens to be the mangled name.
+		return c, name
+	}
 	// Mangle the template name with the input context to produce a reliable
 	// identifier.
 	dname := mangle(c, name)
